@@ -104,6 +104,9 @@ void violation(const std::string &key, const std::string &what, const std::strin
 
 void record(const std::string &json) {
 	// json is an object "{...}"; splice the type tag in
+	if (json.find("\"t\":") != std::string::npos && (json.compare(0, 5, "{\"t\":") == 0 || json.find(",\"t\":") != std::string::npos)) {
+		fprintf(stderr, "vf::record: a record must not have a field named \"t\" (it would override the line type)\n"); abort();
+	}
 	if (json.size() >= 2 && json[0] == '{') {
 		std::string body = json.substr(1);
 		emit(std::string("{\"t\":\"rec\",\"case\":") + std::to_string(ctx.cur_case) + (body == "}" ? "" : ",") + body);
